@@ -15,3 +15,4 @@ Eval vm_compute in ("RESULT", "C16.is_aromatic", map show_sym bad_is_aromatic).
 Eval vm_compute in ("RESULT", "C16.debracket_model_is_table", map (fun p => (show_sym (fst p), show_h (snd p))) (firstn 8 bad_debracket_model)).
 Eval vm_compute in ("RESULT", "C16.debracket_meaning", map (fun t => let '(s, h, b) := t in (show_sym s, show_h h, b)) (firstn 12 bad_debracket_meaning)).
 Eval vm_compute in ("RESULT", "C16.debracket_misc", debracket_misc_ok).
+Eval vm_compute in ("RESULT", "C16.debracket_returns_self_when_another_field_is_present", debracket_other_field_rows).
